@@ -113,7 +113,7 @@ class Mismatch(Exception):
         self.sig, self.what, self.trail = sig, what, trail
 
 
-def lockstep(live, cut, uid_n, depth, trail, kind, stats, base_t):
+def lockstep(live, cut, uid_n, depth, trail, kind, stats, base_t, k=0):
     """Explore all continuations of length <= depth on both copies."""
     if depth == 0:
         return
@@ -131,7 +131,7 @@ def lockstep(live, cut, uid_n, depth, trail, kind, stats, base_t):
         outs_live = list(all_outcomes(live, uid_n, conc_l))
         for vec, st_l, n_l in outs_live:
             st_c = v2x.copy_state(cut)
-            seams.clock().t = base_t + _6S if kind == "AGE" else base_t
+            seams.clock().t = _cut_time(base_t, kind, k)
             try:
                 points, n_c, _ = v2x.step(st_c, conc_c, list(vec), uid_n)
             except Exception as e:
@@ -153,7 +153,7 @@ def lockstep(live, cut, uid_n, depth, trail, kind, stats, base_t):
             if C09_ON_CUT_STATES:
                 # C09 piggybacks: its invariant is evaluated on every state reached after a cut
                 from vf.props import c09 as _c09
-                probs, _ = _c09.problems(st_c, allow_missing_parent=(kind == "AGE"))
+                probs, _ = _c09.problems(st_c, allow_missing_parent=kind != "SAVE_RESTORE")
                 stats["c09_states_checked"] = stats.get("c09_states_checked", 0) + 1
                 if probs and len(stats.setdefault("_c09_viol", [])) < 3:
                     stats["_c09_viol"].append((probs[0][0] + ":after-" + kind, probs[0][1], trail + [aev]))
@@ -161,12 +161,24 @@ def lockstep(live, cut, uid_n, depth, trail, kind, stats, base_t):
                 a, b = repr(v2x.dump_state(st_l)), repr(v2x.dump_state(st_c))
                 if a != b:
                     raise Mismatch(f"{kind}:state-differs-after-continuation", "structural dumps differ after an identical continuation", trail + [aev])
-            lockstep(st_l, st_c, n_l, depth - 1, trail + [aev], kind, stats, base_t)
+            lockstep(st_l, st_c, n_l, depth - 1, trail + [aev], kind, stats, base_t, k + 1)
 
 
 import datetime as _dt
 
 _6S = _dt.timedelta(seconds=6)
+
+
+def _cut_time(base_t, kind, k):
+    """virtual time at which continuation step k runs on the cut copy: AGE = 6 s of idle time once, before the
+    continuation; AGE_EACH = 6 s of idle time before every continuation step (instances that finish during the
+    continuation age out as well); RESTORE_AGED = the state is saved, restored, and every continuation step comes
+    after 6 s of idle time (a server handing the stored state back minutes later)"""
+    if kind == "AGE":
+        return base_t + _6S
+    if kind in ("AGE_EACH", "RESTORE_AGED"):
+        return base_t + _6S * (k + 1)
+    return base_t
 
 
 def _short(o):
@@ -193,7 +205,7 @@ def explore(task):
     while frontier:
         state, uid_n, hist, d = frontier.popleft()
         # ---- cut transitions at this state
-        for kind in ("SAVE_RESTORE", "AGE"):
+        for kind in ("SAVE_RESTORE", "AGE", "AGE_EACH", "RESTORE_AGED"):
             trail = [list(h) for h in hist]
             try:
                 if kind == "SAVE_RESTORE":
@@ -209,6 +221,12 @@ def explore(task):
                     a, b = repr(v2x.dump_state(state)), repr(v2x.dump_state(cut))
                     if a != b:
                         raise Mismatch("SAVE_RESTORE:restored-state-differs", "structural dump of the restored state differs from the live state: " + _first_diff(a, b), trail)
+                elif kind == "RESTORE_AGED":
+                    stats["cuts_restore_aged"] = stats.get("cuts_restore_aged", 0) + 1
+                    try:
+                        cut = json_to_state(state_to_json(v2x.copy_state(state)))
+                    except Exception:
+                        continue  # reported by the SAVE_RESTORE cut of this state
                 else:
                     stats["cuts_age"] += 1
                     cut = v2x.copy_state(state)
@@ -216,6 +234,8 @@ def explore(task):
                         stats["aged_cuts_that_discarded_instances"] += 1
                 lockstep(v2x.copy_state(state), cut, uid_n, cont, trail, kind, stats, base_t)
             except Mismatch as m:
+                if kind == "RESTORE_AGED" and any(x.startswith("SAVE_RESTORE:") for x in sigs):
+                    continue  # the plain save/restore cut of this program already diverges: same defect, already reported
                 if m.sig not in sigs:
                     sigs.add(m.sig)
                     viol.append((f"{m.sig}:{name}" if name in ZOO or name in REF_PROGRAMS else m.sig, f"[{name}] " + m.what,
@@ -335,16 +355,16 @@ def replay(rp):
     base_t = seams.clock().t
     live = v2x.copy_state(st)
     try:
-        cut = json_to_state(state_to_json(v2x.copy_state(st))) if rp["cut"] == "SAVE_RESTORE" else v2x.copy_state(st)
+        cut = json_to_state(state_to_json(v2x.copy_state(st))) if rp["cut"] in ("SAVE_RESTORE", "RESTORE_AGED") else v2x.copy_state(st)
     except Exception as e:
         print("save/restore raised", repr(e))
         print(rp["what"])
         return 0
-    for aev in [tuple(h) for h in rp["continuation"]]:
+    for _k, aev in enumerate([tuple(h) for h in rp["continuation"]]):
         cl, cc = v2x.resolve_event(live, aev), v2x.resolve_event(cut, aev)
         seams.clock().t = base_t
         _, n2, _ = v2x.step(live, cl, [], n)
-        seams.clock().t = base_t + _6S if rp["cut"] == "AGE" else base_t
+        seams.clock().t = _cut_time(base_t, rp["cut"], _k)
         try:
             v2x.step(cut, cc, [], n)
             print(rp["cut"], "continuation", aev[:2], "live:", v2x.out_events(live), "cut:", v2x.out_events(cut))
